@@ -136,7 +136,7 @@ func runC13(tier string, seed uint64) {
 		if i%4 == 3 {
 			// a key that begins with the delimiter (stored by PUT /bucket//p/a0): the grouped listings show it the way
 			// Prefix.Match sees it, and every other key is still there
-			keys = append(keys, "/p/a0")
+			keys = append(keys, "/p/a0", "p")
 		}
 		if i%4 == 1 {
 			keys = append(keys, "m"+strings.Repeat("L", 1023)) // a key of the maximum length: it is a legal key marker too
@@ -200,7 +200,7 @@ func runC13(tier string, seed uint64) {
 			}
 		}
 		n := len(full.Entries)
-		for _, pd := range [][2]string{{"", ""}, {"p", ""}, {"", "/"}, {"p/", "/"}} {
+		for _, pd := range [][2]string{{"", ""}, {"p", ""}, {"", "/"}, {"p/", "/"}, {"p", "/"}} {
 			s.ListVersions(b, pd[0], pd[1], "", "", -1)
 			if pd[1] != "" && i%4 == 3 {
 				continue // (grouped pages over keys that begin with the delimiter repeat a common prefix: the D32 quirk of Prefix.Match, outside the listing properties' key domain)
